@@ -52,7 +52,7 @@ def gen_cases(chk):
             else: m.insert(pos, rng.choice((0, 255, rng.randrange(256))))
             add(len(plain) + rng.choice((0, 0, 0, 1, -1, 7, -7)), m, 'mutant', plain)
     # long runs: 255-chains in match and literal lengths
-    for n in ((300, 600, 5000, 70000) if thorough else (300, 600, 5000)):
+    for n in ((300, 600, 5000, 20000) if thorough else (300, 600, 5000)):      # (the extracted model is cubic in the run length: 20000 takes a minute)
         plain = [7] * n
         add(n, L.encode(plain, rng, 'greedy'), 'run', plain)
         plain = [rng.randrange(256) for _ in range(n // 10)] + [1, 2, 3, 4] * (n // 4)
